@@ -242,7 +242,7 @@ func wordNums(alphabet []uint32, word []int) []uint32 {
 func TestC03(t *testing.T) {
 	env := kit.GetEnv()
 	rep := kit.NewReport("C03", env)
-	rep.Rule = "all delivery histories (words incl. repeats = duplication, omissions = loss, any order) of length D over 6-number alphabets of sender sequence numbers, per layer (bare handler, end-to-end encrypted regular, end-to-end encrypted priority, link frame; signed: timestamps); every prefix is checked step by step against the reference set model; non-trivial = history contains at least one duplicate or out-of-window delivery; states = distinct reference-model states (accepted set, max) reached"
+	rep.Rule = "all delivery histories (words incl. repeats = duplication, omissions = loss, any order) of length D over 6-number alphabets of sender sequence numbers, per layer (bare handler, end-to-end encrypted regular, end-to-end encrypted priority, link frame; signed: timestamps 1 ms to 3 h apart); every prefix is checked step by step against the reference set model; non-trivial = history contains at least one duplicate or out-of-window delivery; states = distinct reference-model states (accepted set, max) reached"
 	rep.Assumptions = []string{
 		"sequence numbers outside the enumerated alphabets behave like those inside (alphabets: contiguous low, straddling the 64 window edge, high near 2^32 but below the key-rollover zone which C15 covers)",
 		"AEAD/Ed25519 primitives are correct",
@@ -288,9 +288,11 @@ func signed(t *testing.T, rep *kit.Report, env kit.Env, depth int) {
 	type mkfn func() func(i int) bool
 	// bare TimeSequenceHandler.
 	base := time.Date(2024, 1, 1, 0, 0, 0, 0, time.UTC)
+	// timestamps 1 ms, 10 min, 61 min and 3 h apart: replay rules must not depend on the gap size.
+	offsets := []time.Duration{0, time.Millisecond, 10 * time.Minute, 71 * time.Minute, 4 * time.Hour}
 	mkBare := func() func(i int) bool {
 		h := state.NewTimeSequenceHandler(0)
-		return func(i int) bool { return h.Check(base.Add(time.Duration(i) * time.Millisecond)) == nil }
+		return func(i int) bool { return h.Check(base.Add(offsets[i])) == nil }
 	}
 	// real signed frames (virtual clock so the sealing timestamps are reproducible).
 	var frames [k][]byte
@@ -317,9 +319,8 @@ func signed(t *testing.T, rep *kit.Report, env kit.Env, depth int) {
 			last = f.SequenceTime()
 			d, _ := f.FrameDataWithMargins(0, 0)
 			frames[i] = append([]byte(nil), d...)
-			if i%2 == 1 {
-				time.Sleep(3 * time.Millisecond)
-			}
+			// virtual time: gaps of 1 ms, 10 min, 61 min and 3 h between the sealed frames.
+			time.Sleep(offsets[(i+1)%k] - offsets[i] + time.Duration(i)*time.Microsecond)
 		}
 		bnode = b
 	})
